@@ -398,7 +398,7 @@ impl Grp {
             )
             .unwrap(),
             Grp::P521 => hex::decode(
-                "01fffffffffffffffffffffffffffffffffffffffffffffffffffffffffffffffffffa51868783bf2f966b7fcc0148f709a5d03bb5c9b8899c47aebb6fb71e91386409",
+                "01fffffffffffffffffffffffffffffffffffffffffffffffffffffffffffffffffa51868783bf2f966b7fcc0148f709a5d03bb5c9b8899c47aebb6fb71e91386409",
             )
             .unwrap(),
         }
@@ -1237,6 +1237,29 @@ pub fn selftest() -> Result<(), String> {
         if out.iter().any(|b| *b != 0) {
             return Err(format!("reference self-test: {} is not a small-order u", hex::encode(u)));
         }
+    }
+    // group constants: order n is not a valid scalar, n-1 is, and (n-1)*G = -G
+    for g in [Grp::Ristretto255, Grp::P256, Grp::P384, Grp::P521] {
+        let n = g.order_bytes();
+        if n.len() != g.scalar_len() || g.field_prime_bytes().len() != g.scalar_len() {
+            return Err(format!("reference self-test: constant lengths of {g:?}"));
+        }
+        if g.valid_scalar(&n) {
+            return Err(format!("reference self-test: order of {g:?} accepted as scalar"));
+        }
+        let mut nm1 = n.clone();
+        let i = if g.little_endian() { 0 } else { nm1.len() - 1 };
+        nm1[i] -= 1;
+        if !g.valid_scalar(&nm1) {
+            return Err(format!("reference self-test: order-1 of {g:?} rejected as scalar"));
+        }
+        let mut one = vec![0u8; g.scalar_len()];
+        one[i] = 1;
+        let gpt = g.base_mul(&one).ok_or("base_mul(1)")?;
+        let neg = g.base_mul(&nm1).ok_or("base_mul(n-1)")?;
+        // (n-1)*((n-1)*G) = G
+        let back = g.mul(&nm1, &neg).ok_or("mul")?;
+        st_eq!(back, gpt, "(n-1)^2 * G = G in {g:?}");
     }
     // RFC 9497 Appendix A, OPRF mode
     let ov = vectors::parse_oprf();
